@@ -56,15 +56,25 @@ def job_ids(prog, I, st, wc):
 
 
 def check(ctx, prog):
-    body = prog.find_fn(FN) or prog.find_fn('<KeyPersistentRouting as Router>::route_message')
+    check_router(ctx, prog, 'KeyPersistentRouting')
+    check_router(ctx, prog, 'StickyQueuerRouting')
+
+
+def check_router(ctx, prog, router):
+    body = prog.find_fn('<%s<TKey, TMsg> as Router<TKey, TMsg>>::route_message' % router) or prog.find_fn('<%s as Router>::route_message' % router)
     if body is None:
-        raise Inconclusive('KeyPersistentRouting::route_message not found')
+        raise Inconclusive('%s::route_message not found' % router)
     ctx.encoded(prog, body)
     dw = prog.crate.struct('WorkerProperties')
     seen = set()
     all_pools = pools()
+    sticky = router == 'StickyQueuerRouting'
+    if sticky:
+        # a sticky-queuer worker only ever holds jobs of one key (it is given a job when idle or when it already processes that key)
+        all_pools = [p for p in all_pools if all(len(pending(s)) <= 1 for _, s in p)]
     if ctx.tier == 'quick':
         all_pools = [p for i, p in enumerate(all_pools) if len(p) <= 2 or i % 3 == 0]
+    pre = 'exclusive' if not sticky else 'exclusive_sticky'
     for pl in all_pools:
         for hint in (None, 0, 1):
             I = books.new_interp(prog)
@@ -80,18 +90,25 @@ def check(ctx, prog):
                 recs.append((wid, Agg('WorkerProperties', f)))
             poolv = Agg('HashMap', [Agg('()', (I.mk_int(wid, 'usize'), r)) for wid, r in recs])
             pc = st.alloc(poolv)
-            rc = st.alloc(Agg('KeyPersistentRouting', (Agg('PhantomData', ()), Agg('PhantomData', ()))))
+            if sticky:
+                idle = [w for w, (q, c) in pl if not q and not c]
+                rd = prog.crate.struct('StickyQueuerRouting')
+                rf = {'_key': Agg('PhantomData', ()), '_msg': Agg('PhantomData', ()), 'available_workers': Agg('VecDeque', [I.mk_int(w, 'usize') for w in idle]),
+                      'worker_in_queue': Agg('Vec', [z3.BoolVal(w in idle) for w in range(3)])}
+                rc = st.alloc(Agg('StickyQueuerRouting', [rf[n] for n in rd['fields']]))
+            else:
+                rc = st.alloc(Agg('KeyPersistentRouting', (Agg('PhantomData', ()), Agg('PhantomData', ()))))
             jobv = books.mk_job(prog, K, 'new')
             outs = I.run_body(st, body, [Ref(rc, (), True), jobv, I.mk_int(3, 'usize'), models_std.NONE if hint is None else models_std.some(I.mk_int(hint, 'usize')), Ref(pc, (), True)])
             ctx.absorb(I)
             ctx.paths += len(outs)
-            tag = 'exclusive.%s.hint%s' % ('_'.join('%d:%s/%s' % (w, ''.join(map(str, q)) or '-', ''.join(map(str, c)) or '-') for w, (q, c) in pl) or 'empty', hint)
+            tag = pre + '.%s.hint%s' % ('_'.join('%d:%s/%s' % (w, ''.join(map(str, q)) or '-', ''.join(map(str, c)) or '-') for w, (q, c) in pl) or 'empty', hint)
             holder = next((w for w, s in pl if K in pending(s)), None)
             for k, o in enumerate(outs):
                 name = '%s.path%d' % (tag, k)
-                cex = (lambda pl=pl, hint=hint: (lambda m: replay(pl, hint)))()
+                cex = (lambda pl=pl, hint=hint: (lambda m: replay(pl, hint, router)))()
                 if o.kind != 'ret':
-                    lp.record(ctx, name, o.st, {'routing_completes_without_panic': False}, 'C14.exclusive', on_cex=cex)
+                    lp.record(ctx, name, o.st, {'routing_completes_without_panic': False}, 'C14.' + pre, on_cex=cex)
                     continue
                 res = o.val
                 after = {}
@@ -137,12 +154,12 @@ def check(ctx, prog):
                     claims['a_job_that_comes_back_changed_nothing'] = not changed
                     claims['job_comes_back_only_when_no_worker_can_take_it'] = holder is None
                     seen.add('backlog')
-                lp.record(ctx, name, o.st, claims, 'C14.exclusive', on_cex=cex)
+                lp.record(ctx, name, o.st, claims, 'C14.' + pre, on_cex=cex)
     for w in ('pinned', 'started', 'queued', 'backlog'):
-        ctx.note_witness('C14.exclusive.' + w, w in seen)
-    ctx.bounds['exclusive'] = 'pools over workers 0..2 (each present or not), per worker one of 8 record shapes over two keys, every combination in which each key is on at most one worker; new job of one key; hint none / 0 / 1; hash symbolic; hand-over succeeding or failing'
+        ctx.note_witness('C14.%s.%s' % (pre, w), w in seen)
+    ctx.bounds[pre] = 'pools over workers 0..2 (each present or not), per worker one of 8 record shapes over two keys, every combination in which each key is on at most one worker; new job of one key; hint none / 0 / 1; hash symbolic; hand-over succeeding or failing'
 
 
-def replay(pl, hint):
+def replay(pl, hint, router='KeyPersistentRouting'):
     import C14_exclusive_replay
-    return C14_exclusive_replay.replay(pl, hint)
+    return C14_exclusive_replay.replay(pl, hint, router)
